@@ -435,10 +435,30 @@ def rule_hd_except(cx, rep, port):
     map_param = fd.args.args[1].arg
     # the index list: receiver of the append of a variable-map entry's index
     idx = [c for c in walk_no_nested(fd) if isinstance(c, ast.Call) and isinstance(c.func, ast.Attribute) and c.func.attr in ('append', 'push') and isinstance(c.func.value, ast.Name) and c.args and isinstance(c.args[0], ast.Attribute) and c.args[0].attr == 'index']
+    mapped = None
     if len(idx) != 1:
-        rep.undecided('index source', fd, 'collection of the EXCEPT indices not recognised')
-        return
-    L = idx[0].func.value.id
+        # the list may also be produced by mapping the names to `<map entry>.index` (comprehension, map() with a closure)
+        for d in walk_no_nested(fd):
+            if not (isinstance(d, ast.Assign) and isinstance(d.targets[0], ast.Name)):
+                continue
+            v = d.value
+            elts = []
+            if isinstance(v, ast.ListComp):
+                elts = [v.elt]
+            elif isinstance(v, ast.Call) and isinstance(v.func, ast.Attribute) and v.func.attr == 'map' and len(v.args) == 1:
+                fn = getattr(v.args[0], 'js_function_ref', None)
+                if fn is None and isinstance(v.args[0], ast.Name):
+                    fn = next((x for x in ast.walk(fd) if isinstance(x, ast.FunctionDef) and x.name == v.args[0].id), None)
+                if isinstance(v.args[0], ast.Lambda):
+                    elts = [v.args[0].body]
+                elif fn is not None:
+                    elts = [r.value for r in ast.walk(fn) if isinstance(r, ast.Return) and r.value is not None]
+            if elts and all(isinstance(e_, ast.Attribute) and e_.attr == 'index' for e_ in elts):
+                mapped = (d, elts)
+        if mapped is None:
+            rep.undecided('index source', fd, 'collection of the EXCEPT indices not recognised')
+            return
+    L = idx[0].func.value.id if mapped is None else mapped[0].targets[0].id
 
     def flows_from(e, name, seen=None):
         """does the value of e derive (through definitions of the names it mentions) from the list `name`?"""
@@ -454,9 +474,9 @@ def rule_hd_except(cx, rep, port):
                     if isinstance(d, ast.Assign) and any(is_name(t_, x.id) for t_ in d.targets) and flows_from(d.value, name, seen):
                         return True
         return False
-    src = idx[0].args[0].value
+    src = idx[0].args[0].value if mapped is None else mapped[1][0].value
     src_ok = (isinstance(src, ast.Name) and any(isinstance(d, ast.Assign) and is_name(d.targets[0], src.id) and map_param in names_in(d.value) for d in walk_no_nested(fd))) or map_param in names_in(src)
-    rep.decide(src_ok, 'index source', idx[0], 'indices come from the variable map', 'EXCEPT indices do not come from the variable map entries')
+    rep.decide(src_ok, 'index source', idx[0] if mapped is None else mapped[0], 'indices come from the variable map', 'EXCEPT indices do not come from the variable map entries')
     srt = [c for c in walk_no_nested(fd) if isinstance(c, ast.Call) and ((dotted(c.func) == 'sorted' and c.args and flows_from(c.args[0], L)) or (isinstance(c.func, ast.Attribute) and c.func.attr == 'sort' and flows_from(c.func.value, L)))]
     rep.decide(len(srt) >= 1, 'index order', srt[0] if srt else fd, 'skip indices are sorted', 'skip indices are not sorted')
     proj = [c for c in walk_no_nested(fd) if isinstance(c, ast.Call) and dotted(c.func) == 'select_except' and c.args and is_name(c.args[0], hdr_param)]
@@ -490,7 +510,7 @@ def rule_hd_except(cx, rep, port):
         pre, suf, hole = tmpl
         okr = pre.replace(' ', '') == 'select_except(record_a,[' and suf.replace(' ', '') == '])' and flows_from(hole, L)
         rep.decide(okr, 'record projection', rets[0], 'records = select_except(record_a, [the same indices])', 'the EXCEPT record expression is not select_except(record_a, [<the collected indices>])')
-    unk = [r for r in walk_no_nested(fd) if isinstance(r, ast.Raise)]
+    unk = [r for r in ast.walk(fd) if isinstance(r, ast.Raise)]
     rep.decide(len(unk) == 1 and 'RbqlParsingError' in node_text(unk[0]), 'unknown field', unk[0] if unk else fd, 'unknown field -> parsing error', 'an unknown EXCEPT field is not a parsing error')
     se = p.func(mod, 'select_except')
     _select_except_semantics(rep, se)
